@@ -368,6 +368,19 @@ impl<'a> Ctx<'a> {
                 "timestamp-not-covered".to_string()
             } else if e.data.is_empty() && e.timestamp == 0 && e.checksum == 0 {
                 "zero-entry".to_string()
+            } else if e.validate() && a.map(|a| a.validate() && a.checksum == e.checksum && a.timestamp == e.timestamp && a.data.len() != e.data.len() && (a.data.starts_with(&e.data) || e.data.starts_with(&a.data))).unwrap_or(false) {
+                // a genuine CRC-32 collision between `len | stamp | payload` and `len' | stamp | payload'` of
+                // ANOTHER length (the length field was damaged): Props/C10Window.lean length_bit_flip_counterexample
+                "crc32-collision:length-field".to_string()
+            } else if e.validate() && a.map(|a| a.validate() && a.checksum == e.checksum && a.timestamp == e.timestamp && a.data.len() == e.data.len() && a.data.iter().zip(e.data.iter()).filter(|(x, y)| x != y).count() >= 2 && {
+                let first = a.data.iter().zip(e.data.iter()).position(|(x, y)| x != y).unwrap_or(0);
+                let last = a.data.iter().zip(e.data.iter()).rposition(|(x, y)| x != y).unwrap_or(0);
+                last - first >= 4
+            }).unwrap_or(false) {
+                // a genuine CRC-32 collision between two payloads of the same length that differ over a span
+                // of MORE than 4 bytes (anything narrower is detected: field_damage_yields_prefix):
+                // Props/C10Window.lean torn_zero_fill_counterexample
+                "crc32-collision:wide-damage".to_string()
             } else {
                 format!("{}:foreign", kind)
             };
@@ -456,6 +469,17 @@ fn local_store_case(c: &Case, rng: &mut Rng, out: &mut Out, dir: &std::path::Pat
             out.violation("C10:local-store:size", "LocalWalWriter::size() differs from the bytes appended", json!({"name": f.name}));
         }
     }
+    // what `list()` must not report (the model's directory holds regular files only): a SUBDIRECTORY with a
+    // WAL name, a symlink to a device, a file whose name is not UTF-8
+    let decoys = rng.chance(1, 3);
+    if decoys {
+        let _ = std::fs::create_dir(dir.join("wal-7fffffff.wal"));
+        let _ = std::os::unix::fs::symlink("/dev/null", dir.join("wal-7ffffffe.wal"));
+        use std::os::unix::ffi::OsStrExt;
+        let _ = std::fs::write(dir.join(std::ffi::OsStr::from_bytes(b"wal-\xff\xfe.wal")), b"x");
+        out.count("local-store:decoys(subdirectory,device-symlink,non-utf8-name)");
+    }
+    check_listing(&local, dir, out, "after-pre-files");
     let pre_img = image();
     out.op(format!("I {}", show_image(&pre_img)), format!("ok {}", pre_img.len()));
     let ents: Vec<String> = c.entries.iter().map(show_entry).collect();
@@ -475,6 +499,7 @@ fn local_store_case(c: &Case, rng: &mut Rng, out: &mut Out, dir: &std::path::Pat
             return;
         }
     };
+    check_listing(&local, dir, out, "after-appends");
     let img = image();
     let cur = if c.entries.is_empty() { "-".to_string() } else { hex(wal_name(rot.current_sequence()).as_bytes()) };
     out.op(format!("NA {} {} {}", c.max, c.entries.len(), ents.join(" ")), format!("{} cur={}", show_image(&img), cur));
@@ -540,6 +565,101 @@ fn local_store_case(c: &Case, rng: &mut Rng, out: &mut Out, dir: &std::path::Pat
         }
     }
     let _ = std::fs::remove_dir_all(dir);
+}
+
+/// ORACLE (independent of `list()` itself — the model is fed what `list()` returns): the listing is exactly the
+/// regular files of the directory whose names are UTF-8, in byte order, as the harness' own `read_dir` sees them
+fn check_listing(local: &LocalWalStore, dir: &std::path::Path, out: &mut Out, when: &str) {
+    let mut want: Vec<String> = std::fs::read_dir(dir)
+        .map(|rd| rd.filter_map(|e| e.ok()).filter(|e| std::fs::metadata(e.path()).map(|m| m.is_file()).unwrap_or(false)).filter_map(|e| e.file_name().into_string().ok()).collect())
+        .unwrap_or_default();
+    want.sort();
+    match local.list() {
+        Ok(got) if got == want => out.count("local-store:list:agrees-with-read_dir"),
+        Ok(got) => out.violation("C10:local-store:list", "LocalWalStore::list() is not the sorted list of the regular UTF-8-named files of the directory", json!({"when": when, "list": got, "directory": want})),
+        Err(e) => out.violation("C10:local-store:list", &format!("LocalWalStore::list() failed: {}", e), json!({"when": when})),
+    }
+}
+
+/// `LocalWalStore` behaviour that only real files show (run once per check): nested directory creation,
+/// a path that is a file, `create` over an existing name, a full disk (`/dev/full` behind a symlink at the
+/// name the rotator will create next), recovery over the result
+fn local_store_extras(out: &mut Out, base: &std::path::Path) {
+    let _ = std::fs::remove_dir_all(base);
+    let nested = base.join("a").join("b").join("wal");
+    let local = match LocalWalStore::new(nested.clone()) {
+        Ok(l) => l,
+        Err(e) => {
+            out.violation("C10:local-store:cannot-create-directory", &format!("LocalWalStore::new on a nested path failed: {}", e), json!({"dir": nested.display().to_string()}));
+            return;
+        }
+    };
+    out.count("local-store:extras:nested-directory-created");
+    // a second store over the same (existing) directory is fine; a path that is a FILE is an error, not a panic
+    if LocalWalStore::new(nested.clone()).is_err() {
+        out.violation("C10:local-store:existing-directory", "LocalWalStore::new on an existing directory failed", json!({}));
+    }
+    std::fs::write(base.join("plain-file"), b"x").unwrap();
+    match catch_unwind(AssertUnwindSafe(|| LocalWalStore::new(base.join("plain-file")))) {
+        Ok(Err(_)) => out.count("local-store:extras:path-is-a-file:error"),
+        Ok(Ok(_)) => out.violation("C10:local-store:path-is-a-file", "LocalWalStore::new accepted a path that is a regular file", json!({})),
+        Err(_) => out.violation("C10:panic:local-store-new", "LocalWalStore::new panicked on a path that is a regular file", json!({})),
+    }
+    // create over an existing name truncates (what the model's `create` does), and the new writer starts at 0
+    {
+        let mut w = local.create("wal-000000aa.wal").unwrap();
+        w.append(b"0123456789").unwrap();
+        w.sync().unwrap();
+        drop(w);
+        let mut w2 = local.create("wal-000000aa.wal").unwrap();
+        let size0 = w2.size();
+        w2.append(b"ab").unwrap();
+        let size2 = w2.size();
+        drop(w2);
+        let bytes = local.open_read("wal-000000aa.wal").and_then(|mut r| r.read_all()).unwrap_or_default();
+        if size0 != 0 || size2 != 2 || bytes != b"ab" {
+            out.violation("C10:local-store:create-truncates", "create over an existing name did not start an empty file", json!({"size_after_create": size0, "size_after_append": size2, "bytes": hex(&bytes)}));
+        }
+        local.delete("wal-000000aa.wal").unwrap();
+        out.count("local-store:extras:create-over-existing-name");
+    }
+    // a full disk under file 1: its header cannot be written; the rotator reports the error, moves on to file 2,
+    // and recovery returns exactly what was appended successfully
+    if std::path::Path::new("/dev/full").exists() {
+        let _ = std::os::unix::fs::symlink("/dev/full", nested.join(wal_name(1)));
+        let e = |t: u64| { let data = vec![t as u8, 9, 9]; let checksum = crate::cfg::entry_checksum(t, &data); WalEntry { data, timestamp: t, checksum } };
+        let r = catch_unwind(AssertUnwindSafe(|| {
+            let mut rot = WalRotator::new(local.clone(), 1 << 20).unwrap();
+            let mut ok = Vec::new();
+            let mut results = Vec::new();
+            for t in 1..=3u64 {
+                let en = e(t);
+                let res = rot.append(&en);
+                results.push(res.is_ok());
+                if res.is_ok() {
+                    ok.push(en);
+                }
+            }
+            let synced = rot.sync().is_ok();
+            let rec = rot.recover_all_entries().unwrap();
+            (results, synced, ok, rec)
+        }));
+        match r {
+            Err(_) => out.violation("C10:panic:local-store-disk-full", "the rotator panicked on a full disk", json!({})),
+            Ok((results, synced, ok, rec)) => {
+                out.count("local-store:extras:disk-full(/dev/full)");
+                let same = ok.len() == rec.len() && ok.iter().zip(rec.iter()).all(|(a, b)| same(a, b));
+                // the model (Rot.rotate: create ok, header append fails -> error, no current writer; next append
+                // rotates to file 2): [false, true, true]; the failed writer poisons the next sync() once
+                if results != vec![false, true, true] || !same {
+                    out.violation("C10:local-store:disk-full", "appends over a full disk: results / recovery differ from the model's (first append fails in rotate, the next ones go to the next file, recovery = what was appended)", json!({"append_ok": results, "sync_ok": synced, "appended_ok": ok.len(), "recovered": rec.len()}));
+                }
+            }
+        }
+    } else {
+        out.count("local-store:extras:no-/dev/full");
+    }
+    let _ = std::fs::remove_dir_all(base);
 }
 
 /// `recover()` takes the in-memory rotator type; the local one goes through the same code
@@ -685,6 +805,10 @@ fn run_case(c: &Case, rng: &mut Rng, out: &mut Out, thorough: bool, fixed: Optio
             if f.contains("timestamp-flip") {
                 muts.insert(0, (16 + 5, bytes[16 + 5] ^ 1));
             }
+            if f.contains("crc32-collision:length") && bytes.len() > 16 && bytes[16] == 5 {
+                // ONE flipped bit in the first length byte of the first entry: 5 -> 1
+                muts.insert(0, (16, 1));
+            }
         }
         for (pos, val) in muts {
             if bytes[pos] == val {
@@ -742,6 +866,9 @@ fn run_case(c: &Case, rng: &mut Rng, out: &mut Out, thorough: bool, fixed: Optio
         bounds.push(bytes.len());
         bounds.sort();
         bounds.dedup();
+        // (the layout is computed from what was APPENDED; when the file on disk is shorter — a changed
+        // rotator — the harness must report that through the oracles, not panic while slicing)
+        bounds.retain(|p| *p <= bytes.len());
         for (pos, width, is_len) in fields {
             if pos + width > bytes.len() {
                 continue;
@@ -784,6 +911,32 @@ fn run_case(c: &Case, rng: &mut Rng, out: &mut Out, thorough: bool, fixed: Optio
                     ctx.out.count(&format!("damage:cut+constant-tail:{:02x}", run[0]));
                 }
             }
+        }
+        store.set_file_data(&name, bytes.clone());
+    }
+    // a file cut a few bytes before its end, the lost bytes zero-filled (the torn last write of a crash)
+    for (q, li, name, bytes) in wal.iter().map(|w| (&w.0, w.1, w.2.clone(), &w.3)) {
+        let mut cuts: Vec<(usize, usize)> = Vec::new(); // (bytes lost, zeros appended)
+        for lost in 1..=6usize {
+            if bytes.len() >= 16 + lost && (thorough || lost <= 5 || rng.chance(1, 2)) {
+                cuts.push((lost, lost));
+                if rng.chance(1, 3) {
+                    cuts.push((lost, lost + 16));
+                }
+                if lost > 1 && rng.chance(1, 3) {
+                    cuts.push((lost, lost - 1));
+                }
+            }
+        }
+        for (lost, zeros) in cuts {
+            let p = bytes.len() - lost;
+            let mut b = bytes[..p].to_vec();
+            b.extend(std::iter::repeat(0u8).take(zeros));
+            store.set_file_data(&name, b);
+            let rec = recover(&rot);
+            ctx.out.op(format!("ta {} {} {}", li, p, hex(&vec![0u8; zeros])), rec.as_ref().map(|r| show_entries(r)).unwrap_or("crash".into()));
+            ctx.check("torn-tail+zero-fill", *q, format!("lost={} zeros={}", lost, zeros), &rec);
+            ctx.out.count(&format!("damage:torn-tail+zero-fill:lost={}", if lost <= 4 { "1..4(proved)" } else { "5+" }));
         }
         store.set_file_data(&name, bytes.clone());
     }
@@ -979,6 +1132,16 @@ pub fn run(a: &Args) {
         // repaired defects (stamp 5 -> 261 flip, zero-filled tail, recover_entries_after on it): must pass
         out.count(if out.oracle.len() == before { "corpus:timestamp-flip+zero-fill:pass" } else { "corpus:timestamp-flip+zero-fill:FAIL" });
     }
+    // KNOWN FINDING C10:only-appended:crc32-collision:* (Props/C10Window.lean): the two kernel-checked witnesses
+    // that the property's statement is false for CRC-32 — one flipped BIT of a length field, and a torn
+    // tail of 5 bytes that reads back as zeros — replayed on the real code first (must reproduce)
+    {
+        let e = |data: Vec<u8>| { let checksum = crate::cfg::entry_checksum(7, &data); WalEntry { data, timestamp: 7, checksum } };
+        let c1 = Case { max: 1 << 20, entries: vec![e(vec![65, 163, 53, 179, 117])], all_deltas: false, pre: vec![] };
+        let c2 = Case { max: 1 << 20, entries: vec![e(vec![1, 1, 150, 48, 7, 119])], all_deltas: false, pre: vec![] };
+        run_case(&c1, &mut rng, &mut out, false, Some("corpus:crc32-collision:length-bit-flip"));
+        run_case(&c2, &mut rng, &mut out, false, Some("corpus:crc32-collision:torn-zero-fill"));
+    }
     // the open writer's file is NOT the last name listed: (1) sequence 2^32 (`wal-100000000.wal` sorts
     // before the older `wal-ffffffff.wal`), (2) a foreign file `wal-manifest.json` sorts after every WAL
     // name.  truncate_before must spare the open file whatever the listing order is.
@@ -1019,6 +1182,39 @@ pub fn run(a: &Args) {
             }
         }
     }
+    // a LONG file (history shape / capacity: far more entries than any generated case) and many files: recovery
+    // returns every entry, in order — compared with the model (ops I / R / t) and judged directly
+    {
+        let e = |t: u64| { let data = vec![(t % 251) as u8, (t / 251) as u8]; let checksum = crate::cfg::entry_checksum(t, &data); WalEntry { data, timestamp: t, checksum } };
+        for (n, max) in [(2500u64, 1usize << 20), (400, 16 + 3 * 18)] {
+            let c = Case { max, entries: (1..=n).map(e).collect(), all_deltas: false, pre: vec![] };
+            let (store, rot, _) = build(&c);
+            let img = image_of(&store);
+            out.op(format!("I {}", show_image(&img)), format!("ok {}", img.len()));
+            match rot {
+                None => out.violation("C10:panic:rotator", "WalRotator::new / append panicked on a long history", json!({"entries": n})),
+                Some(rot) => {
+                    let rec = recover(&rot);
+                    out.op("R".into(), rec.as_ref().map(|r| show_entries(r)).unwrap_or("crash".into()));
+                    let ok = rec.as_ref().map(|r| r.len() == c.entries.len() && r.iter().zip(c.entries.iter()).all(|(a, b)| same(a, b))).unwrap_or(false);
+                    if !ok {
+                        out.violation("C10:intact:long-history", "recovery of an undamaged long history did not return every appended entry in order", json!({"entries": n, "max_file_size": max, "recovered": rec.map(|r| r.len())}));
+                    }
+                    // the last file cut in its last entry: everything before it comes back
+                    if let Some((name, bytes)) = img.last().filter(|(_, b)| !b.is_empty()) {
+                        store.set_file_data(name, bytes[..bytes.len() - 1].to_vec());
+                        let rec = recover(&rot);
+                        out.op(format!("t {} {}", img.len() - 1, bytes.len() - 1), rec.as_ref().map(|r| show_entries(r)).unwrap_or("crash".into()));
+                        if rec.map(|r| r.len()) != Some(c.entries.len() - 1) {
+                            out.violation("C10:prefix:long-history", "a long history cut in its last entry did not come back without exactly that entry", json!({"entries": n}));
+                        }
+                    }
+                    out.count("gen:long-history");
+                }
+            }
+        }
+    }
+    local_store_extras(&mut out, &a.out.join("c10-local-extras"));
     let local_dir = a.out.join("c10-local-wal");
     for _ in 0..a.n {
         let c = gen_case(&mut rng, &mut out);
